@@ -3,6 +3,7 @@ from .punctuation import Indent
 from .meta_item import MetaItem
 from .meta_value import MetaRawValue, MetaValue
 from . import base, internal
+from .internal import properties as internal_properties
 
 _V = TypeVar('_V')
 
@@ -12,6 +13,16 @@ class _Empty:
 
 
 _EMPTY = _Empty()
+
+
+def _pairs(other: object, kwargs: dict[str, _V]) -> list[tuple[str, _V]]:
+    # The (key, value) pairs MutableMapping.update would assign, in its order.
+    if isinstance(other, Mapping) or hasattr(other, 'keys'):
+        pairs = [(key, other[key]) for key in other.keys()]  # type: ignore[attr-defined, index]
+    else:
+        pairs = list(other)  # type: ignore[call-overload]
+    pairs.extend(kwargs.items())
+    return pairs
 
 
 class _DictView:
@@ -106,6 +117,13 @@ class RepeatedRawMetaItemWrapper(
             if item.key == index:
                 return super().__setitem__(i, value)
         self.append(value)
+
+    @no_type_check
+    def update(self, other=(), /, **kwargs) -> None:
+        # MutableMapping.update assigns key by key: refuse a batch with an item that lives elsewhere before writing any.
+        pairs = _pairs(other, kwargs)
+        internal_properties._check_detachable([value for _, value in pairs if isinstance(value, base.RawModel)])
+        super().update(pairs)
 
     def __contains__(self, item: object) -> bool:
         if isinstance(item, str):
@@ -244,6 +262,17 @@ class RepeatedMetaItemWrapper(
                 item.value = value
                 return
         self.append(MetaItem.from_value(index, value, indent=self._get_indent()))
+
+    @no_type_check
+    def update(self, other=(), /, **kwargs) -> None:
+        # MutableMapping.update assigns key by key: refuse a batch with a node that lives elsewhere before writing any.
+        pairs = _pairs(other, kwargs)
+        current = dict[str, int]()  # assigning the value a key already has is a no-op, not a reuse
+        for item in self:
+            current.setdefault(item.key, id(item.raw_value))
+        internal_properties._check_detachable(
+            [value for key, value in pairs if isinstance(value, base.RawModel) and current.get(key) != id(value)])
+        super().update(pairs)
 
     def __contains__(self, item: object) -> bool:
         if isinstance(item, str):
